@@ -107,6 +107,9 @@ pub enum Ch {
     /// an interpolant that is not a whole number: floor and ceiling of the exact rational num / den, and the value
     /// rounding to nearest gives
     Range { lo: u8, hi: u8, den: u8, nearest: u8 },
+    /// BC3 colour with c0 <= c1, selectors 2 / 3: the value under the four-colour reading (Direct3D: BC2 / BC3 colour
+    /// blocks never switch mode) or under the BC1 reading (three colours + black); inclusive bounds of each
+    Alt { four: (u8, u8), three: (u8, u8) },
     Any,
 }
 
@@ -115,6 +118,7 @@ impl Ch {
         match self {
             Ch::Exact(x) => *x == v,
             Ch::Range { lo, hi, .. } => *lo <= v && v <= *hi,
+            Ch::Alt { four, three } => (four.0 <= v && v <= four.1) || (three.0 <= v && v <= three.1),
             Ch::Any => true,
         }
     }
@@ -139,7 +143,7 @@ fn expand565(q: u16) -> [u32; 3] {
 }
 
 /// colour of pixel `px` (0..16, row-major inside the block) of a BC1 colour block. `bc3` = the block is the
-/// colour half of a BC3 block (selectors 2/3 are unasserted when c0 <= c1).
+/// colour half of a BC3 block (selectors 2/3 when c0 <= c1: either reading of the mode rule, see `Ch::Alt`).
 pub fn bc1_pixel(blk: &[u8], px: usize, bc3: bool) -> [Ch; 4] {
     let q0 = u16::from_le_bytes([blk[0], blk[1]]);
     let q1 = u16::from_le_bytes([blk[2], blk[3]]);
@@ -155,7 +159,18 @@ pub fn bc1_pixel(blk: &[u8], px: usize, bc3: bool) -> [Ch; 4] {
             let (a, b) = if sel == 2 { (c0, c1) } else { (c1, c0) };
             [interp(2 * a[0] + b[0], 3), interp(2 * a[1] + b[1], 3), interp(2 * a[2] + b[2], 3), alpha]
         }
-        _ if bc3 => [Ch::Any; 4],
+        _ if bc3 => {
+            let bounds = |c: Ch| match c {
+                Ch::Exact(x) => (x, x),
+                Ch::Range { lo, hi, .. } => (lo, hi),
+                _ => (0, 255),
+            };
+            let (a, b) = if sel == 2 { (c0, c1) } else { (c1, c0) };
+            let four = [interp(2 * a[0] + b[0], 3), interp(2 * a[1] + b[1], 3), interp(2 * a[2] + b[2], 3)];
+            let three = if sel == 2 { [interp(c0[0] + c1[0], 2), interp(c0[1] + c1[1], 2), interp(c0[2] + c1[2], 2)] } else { [Ch::Exact(0); 3] };
+            let alt = |k: usize| Ch::Alt { four: bounds(four[k]), three: bounds(three[k]) };
+            [alt(0), alt(1), alt(2), Ch::Any]
+        }
         2 => [interp(c0[0] + c1[0], 2), interp(c0[1] + c1[1], 2), interp(c0[2] + c1[2], 2), alpha],
         _ => [Ch::Exact(0), Ch::Exact(0), Ch::Exact(0), Ch::Any],
     }
@@ -224,6 +239,7 @@ fn check_texture(c: &Case, file: &[u8], data: &[u8], ctx: &Ctx) -> PResult {
     // Which way a non-integral interpolant is rounded is the decoder's choice (down, to nearest, up), but it is one
     // choice per kind of interpolation (thirds, halves, sevenths, fifths): per denominator, the conventions that
     // explain every value seen so far in this image, and the first value seen for each
+    let mut bc3_modes: u8 = 0b11;
     let mut viable: [u8; 8] = [0b111; 8];
     let mut first: [Option<(usize, usize, usize, u8, Ch)>; 8] = [None; 8];
     for y in 0..rows {
@@ -234,6 +250,14 @@ fn check_texture(c: &Case, file: &[u8], data: &[u8], ctx: &Ctx) -> PResult {
                 let got = t.rgba[o + ch];
                 if !want[ch].ok(got) {
                     return fail(&format!("pixel-differs/{}", format_name(c.format)), format!("{} {}x{}x{} pixel ({}, {}) channel {}: physis={:?} specification={:?}", format_name(c.format), w, h, d, x, y, "RGBA".as_bytes()[ch] as char, &t.rgba[o..o + 4], want));
+                }
+                if let Ch::Alt { four, three } = want[ch] {
+                    // one reading of the mode rule per image
+                    let fits = (four.0 <= got && got <= four.1) as u8 | ((three.0 <= got && got <= three.1) as u8) << 1;
+                    if bc3_modes & fits == 0 {
+                        return fail("bc3-colour-mode-inconsistent", format!("BC3 {}x{}x{}: colour blocks with c0 <= c1 are decoded under the four-colour reading in one place and under the three-colour reading in another; pixel ({}, {}) channel {} = {} for {:?}", w, h, d, x, y, ch, got, want[ch]));
+                    }
+                    bc3_modes &= fits;
                 }
                 if let Ch::Range { lo, hi, den, nearest } = want[ch] {
                     let k = den as usize;
@@ -404,7 +428,7 @@ pub fn property() -> Property {
     Property {
         id: "C13",
         rule: "format in {B8G8R8A8, BC1, BC3, BC5}; width, height 1..64 (512 thorough) including non-multiples of 4; depth 1..8 (height rounded to a multiple of 4 when depth > 1); arbitrary attribute flags, mip field, LOD / surface offsets, 0..200 trailing bytes; random payload with endpoint ties / orderings forced on a random fraction of the blocks. Sweep part: for BC1/BC3/BC5 x 6 endpoint pairs x 3 orderings (>, =, <) x 16 pixel positions x every selector value (4 colour / 8 alpha). Oracle: own per-pixel evaluation from the format definition: BGRA->RGBA; RGB565 endpoints by bit replication (exact); interpolated entries accepted in [floor, ceil] of the exact rational (2a+b)/3, (a+b)/2, ((8-k)a+(k-1)b)/7, ((6-k)a+(k-1)b)/5, and per image and denominator one rounding rule (down, nearest, up) must explain every non-integral interpolant; BC1 black entry RGB = 0 with unconstrained alpha; BC3 = alpha block over BC1 colour; BC5 = R, G from the two blocks, B = 0, A = 255; rgba.len() = 4wh d; 3-D iff attribute bit 0x1000000. Non-trivial: BCn image with a partial edge block, or depth > 1; distinct by hash of the file.",
-        assumptions: &["which rounding rule a decoder uses for interpolants is not asserted (down, nearest and up are all accepted), only that it uses one rule per denominator within an image", "BC3 colour selectors 2/3 when c0 <= c1 are not asserted", "oracle validated on hand-computed blocks at start-up"],
+        assumptions: &["which rounding rule a decoder uses for interpolants is not asserted (down, nearest and up are all accepted), only that it uses one rule per denominator within an image", "BC3 colour selectors 2/3 when c0 <= c1: the four-colour reading (Direct3D) and the BC1 reading (three colours + black) are both accepted, one per image", "oracle validated on hand-computed blocks at start-up"],
         pre: Some(pre),
         post: None,
         parts: vec![
